@@ -55,6 +55,8 @@
   before the tunnel on the clock of `TState`, none of which is armed once the tunnel is established.
   The last layer, `AState` / `astep`, is `hstep` with the two ways a copier returns on an ERROR (`abort d k`:
   the read of its source fails; `writeFail d`: the write to a destination that is gone fails).
+  At the end of the file `stepReq` gives `drain` the request's close option as an input (`req.Close`: the 101 of
+  an upgrade request that also asks to close, or is HTTP/1.0): under the code's rule it makes no difference.
 
   Core-only.
 -/
@@ -801,6 +803,60 @@ def arunFrom (c : Cfg) (L : Legs) (pol : ErrPolicy) : AState → List AStep → 
 
 def arun (c : Cfg) (L : Legs) (pol : ErrPolicy) (steps : List AStep) : Option AState :=
   arunFrom c L pol ainit steps
+
+/-! ### The request's close option and the response that opens the tunnel
+
+`drain` stands for `tunnel()`: `writeTunnelResponse(res)`, then `drainBuffer` and `bicopy`.  The last two are
+reached only when the write did not return `errClose`, and `proxyConn.write` returns `errClose` for a response
+it has marked `res.Close`.  It marks a response when `p.closing() || req.Close` — `req.Close` being what
+`http.ReadRequest` makes of the request's `close` connection option (`Connection: Upgrade, close`, in any
+order, spelling or split over field lines) or of an HTTP/1.0 request without `keep-alive` — and then exempts
+the response that opens a tunnel: `req.Method == CONNECT && 2xx || tunnel` (`ClosePolicy.tunnelNeverCloses`).
+Before the repair of finding F52 only the CONNECT 2xx was exempt (`ClosePolicy.connectOnly`): the 101 of an
+upgrade request that also asked to close went out with `Connection: close`, `tunnel` returned at once and the
+deferred `Close` of both legs ran — the client had switched protocols and was disconnected.  `stepReq` is
+`step` with that input; under the code's policy it IS `step` (`c03_upgrade_close_option_irrelevant`). -/
+
+/-- which responses `proxyConn.write` never marks `res.Close` -/
+inductive ClosePolicy where
+  /-- the code: a successful CONNECT and every response written by `writeTunnelResponse` -/
+  | tunnelNeverCloses
+  /-- before the repair of F52: a successful CONNECT only -/
+  | connectOnly
+  deriving DecidableEq, Repr
+
+def ClosePolicy.exempt : ClosePolicy → (connect2xx : Bool) → Bool
+  | .tunnelNeverCloses, _ => true
+  | .connectOnly, connect2xx => connect2xx
+
+/-- `res.Close` when `write(res, tunnel = true)` returns: `reqClose` = `p.closing() || req.Close`,
+    `connect2xx` = the request is a CONNECT answered 2xx (false on the 101 path) -/
+def headCloses (pol : ClosePolicy) (reqClose connect2xx : Bool) : Bool :=
+  reqClose && !pol.exempt connect2xx
+
+/-- `step` knowing the request: when the head that opens the tunnel is marked `res.Close`, `tunnel` returns
+    before `drainBuffer` and `bicopy` — nothing held is forwarded, no copier ever runs, both legs are closed -/
+def stepReq (c : Cfg) (pol : ClosePolicy) (reqClose connect2xx : Bool) (s : State) : Step → Option State
+  | .drain =>
+    if s.phase = .replied then
+      if headCloses pol reqClose connect2xx = true then
+        some { s with
+          phase := .closed, closedC := true, closedT := true
+          up := { s.up with done := true }
+          down := { s.down with done := true } }
+      else step c s .drain
+    else none
+  | st => step c s st
+
+def runReqFrom (c : Cfg) (pol : ClosePolicy) (reqClose connect2xx : Bool) : State → List Step → Option State
+  | s, [] => some s
+  | s, st :: rest =>
+    match stepReq c pol reqClose connect2xx s st with
+    | none => none
+    | some s' => runReqFrom c pol reqClose connect2xx s' rest
+
+def runReq (c : Cfg) (pol : ClosePolicy) (reqClose connect2xx : Bool) (steps : List Step) : Option State :=
+  runReqFrom c pol reqClose connect2xx init steps
 
 end C03
 end FwdVerif
